@@ -52,9 +52,43 @@ class C19(Property):
                            'linear': 'direct' if cyc else None},
                    'recorder': rng.choice(['model', 'problem']),
                    'fresh': rng.random() < 0.5}
+        # family: a subsystem overrides System.load_case (the documented hook) and restores its own
+        # variables itself; its pathname is, where the model allows, a plain string prefix of a
+        # sibling's pathname
+        for _ in range(10 if tier == 'quick' else 200):
+            yield {'gen_seed': rng.randrange(10 ** 9), 'bseed': rng.randrange(10 ** 9),
+                   'opts': {'safe_indices': True, 'implicit': rng.random() < 0.3,
+                            'scaling': rng.random() < 0.3, 'cycles': False, 'prefix_names': True,
+                            'n_comps': (3, 6)},
+                   'cfg': {'nonlinear': None, 'linear': None},
+                   'recorder': rng.choice(['model', 'problem']),
+                   'fresh': rng.random() < 0.5, 'override': True}
 
     def _md(self, case):
         return gm.gen_md(random.Random(case['gen_seed']), **case['opts'])
+
+    @staticmethod
+    def _install_override(prob, md, case):
+        """Give one subsystem a load_case override that restores that subsystem's own variables from
+        the case (through the public set_val).  Returns the pathname chosen."""
+        paths = sorted({gm.comp_path(c) for c in md['comps']} | {g for g in md['groups'] if g})
+        pref = [a for a in paths if any(b != a and b.startswith(a) and not b.startswith(a + '.')
+                                        for b in paths)]
+        rng = random.Random(case['bseed'] + 1)
+        path = rng.choice(pref or paths)
+        sysobj = prob.model._get_subsystem(path)
+
+        def load_case(self, cs):
+            pre = self.pathname + '.'
+            for abs_name in cs.inputs.absolute_names() if cs.inputs is not None else []:
+                if abs_name.startswith(pre):
+                    prob.model.set_val(abs_name, cs.inputs[abs_name])
+            for abs_name in cs.outputs.absolute_names():
+                if abs_name.startswith(pre):
+                    prob.model.set_val(abs_name, cs.get_val(abs_name))
+        sysobj.__class__ = type('LC_' + sysobj.__class__.__name__, (sysobj.__class__,),
+                                {'load_case': load_case})
+        return path
 
     def _state_b(self, case, md):
         rng = random.Random(case['bseed'])
@@ -88,6 +122,8 @@ class C19(Property):
                     p.recording_options['record_inputs'] = True
                     p.recording_options['record_outputs'] = True
                     p.recording_options['includes'] = ['*']
+                if case.get('override'):
+                    res['override'] = self._install_override(p, md, case)
                 p.setup()
                 gm.set_auto_ivc_values(p, md)
                 p.run_model(case_prefix='state_a')
@@ -112,6 +148,8 @@ class C19(Property):
                     if hasattr(cs.outputs, 'absolute_names') else None
                 if case['fresh']:
                     p2, info2 = gm.build_problem(md, cfg=case['cfg'])
+                    if case.get('override'):
+                        self._install_override(p2, md, case)
                     p2.setup()
                     tgt = p2
                 else:
@@ -157,6 +195,12 @@ class C19(Property):
     def signature(self, case, impl, failure):
         return {'what': failure.get('what'), 'recorder': case['recorder'], 'fresh': case['fresh']}
 
+    @staticmethod
+    def _has_prefix_sibling(md, impl):
+        a = impl.get('override')
+        paths = {gm.comp_path(c) for c in md['comps']} | {g for g in md['groups'] if g}
+        return bool(a) and any(b != a and b.startswith(a) and not b.startswith(a + '.') for b in paths)
+
     def nontrivial(self, case, impl):
         return bool(impl.get('b_differs'))
 
@@ -165,6 +209,8 @@ class C19(Property):
         return ['solver_reported_failure' if impl.get('error') == 'AnalysisError' else
                 'impl_error' if 'error' in impl else 'impl_ok',
                 'recorder=' + case['recorder'], 'fresh=%s' % case['fresh'],
+                'load_case_override' + ('(prefix sibling)' if self._has_prefix_sibling(md, impl) else '')
+                if case.get('override') else 'no_override',
                 'cyclic' if md.get('cyclic') else 'acyclic']
 
     # -- model -----------------------------------------------------------------------------------
